@@ -1,6 +1,6 @@
 /-
   Props.C04Mangle — "a call invokes the function the specification designates" for IMPORTS: the generated C names an imported
-  function (memory, table, global) by the identifier `esc(module) ++ "__" ++ esc(field)` and an export by `<module>_` ++ esc(name);
+  function (memory, table, global) by the identifier `escModule(module) ++ "__" ++ esc(field)` (escModule = leading-digit escape, then esc) and an export by `<module>_` ++ esc(name);
   the embedder defines / the resolver is asked for exactly these names, so two imports are told apart iff the mangling is
   injective.  The escaping rule is NOT written here: `Gen.Mangle` is regenerated on every run from BOTH copies of the routine
   in c.c (wasmCWriteFileEscaped, wasmCWriteStringEscaped; tools/extract/gen_mangle.py), `Model.Mangle` interprets it.
@@ -8,6 +8,10 @@
   * `escape_injective`: distinct names have distinct escaped texts (the escape character is itself escaped, an escape is always
     escape character + exactly two upper-case hex digits, a run of n underscores is written as 2n-1 underscores).
   * `export_symbol_injective`: distinct export names give distinct `<module>_<name>` symbols.
+  * `Props.C04Ident.import_symbol_is_identifier` (own module): the symbol of every import (ANY module and field byte strings) is a C identifier — non-empty, first
+    character a letter or an underscore, the rest alphanumeric or underscores.  The module part goes through
+    `wasmCWrite{File,String}EscapedModule` (regenerated: `Gen.Mangle.moduleLeadEscape`), which escapes a leading digit; on a tree without
+    that wrapper (before /repo ed458af: `(import "1env" "f")` gave `U32 1env__f(void*,U32);`) the regenerated rule makes this theorem fail.
   * `mangle_injective`: distinct (module, field) pairs give distinct identifiers, for module names of the form `ModOK`
     (no two consecutive underscores, no underscore at the end: "env", "wasi_snapshot_preview1", "GOT.mem", "" …; ANY field).
   * `mangle_underscore_boundary_counterexample`: WITHOUT that hypothesis the pinned code is not injective — RECORDED FINDING
@@ -34,7 +38,7 @@ theorem mangle_injective (m f m' f' : List UInt8) (hm : ModOK m) (hm' : ModOK m'
     (h : mangleL m f = mangleL m' f') : m = m' ∧ f = f' := by
   unfold mangleL at h
   simp only [List.append_assoc] at h
-  obtain ⟨e, hR⟩ := esc_sep_inj m m' none _ _ hm hm' h
+  obtain ⟨e, hR⟩ := escMod_sep_inj m m' _ _ hm hm' h
   exact ⟨e, escL_inj f f' none hR⟩
 
 /-- the pinned code maps two different imports to one identifier when underscores touch the module/field boundary -/
@@ -75,9 +79,24 @@ theorem render_escape_is_regenerated (bs : List UInt8) : (escapeName bs).toList 
         have hx : "X".toList = [Char.ofNat escapeChar] := by decide
         rw [hx]; rfl
 
+theorem render_escapeModule_is_regenerated (m : List UInt8) : (escapeModule m).toList = (escModL m).map Char.ofNat := by
+  cases m with
+  | nil => rfl
+  | cons c rest =>
+    have hl : (moduleLeadEscape.any fun a => match a with | .digit => 48 ≤ c.toNat && c.toNat ≤ 57) = leads c := by
+      unfold leads
+      congr 1
+    simp only [escapeModule, escModL, hl]
+    by_cases h : leads c = true
+    · simp only [h, if_true, String.toList_append, hex2_toList', render_escape_is_regenerated, List.map_append, List.map_cons, List.cons_append]
+      have hx : "X".toList = [Char.ofNat escapeChar] := by decide
+      rw [hx]; rfl
+    · simp only [h]
+      exact render_escape_is_regenerated (c :: rest)
+
 theorem render_importName_is_regenerated (m f : List UInt8) : (importName (m, f)).toList = (mangleL m f).map Char.ofNat := by
   unfold importName mangleL
-  simp only [String.toList_append, render_escape_is_regenerated, List.map_append, separator]
+  simp only [String.toList_append, render_escape_is_regenerated, render_escapeModule_is_regenerated, List.map_append, separator]
   congr 1
 
 private theorem code_lt (prev : Option UInt8) (bs : List UInt8) : ∀ x ∈ escL prev bs, x < 256 := by
@@ -97,6 +116,10 @@ private theorem code_lt (prev : Option UInt8) (bs : List UInt8) : ∀ x ∈ escL
         · split <;> omega
         · split <;> omega
     · exact ih _ x hx
+
+private theorem idChar_lt (x : Nat) (h : isIdChar x = true) : x < 256 := by
+  simp [isIdChar, isIdStart] at h
+  omega
 
 private theorem ofNat_inj {n m : Nat} (hn : n < 256) (hm : m < 256) (h : Char.ofNat n = Char.ofNat m) : n = m := by
   have e : ∀ k, k < 256 → (Char.ofNat k).toNat = k := by
@@ -123,7 +146,7 @@ theorem importName_injective (m f m' f' : List UInt8) (hm : ModOK m) (hm' : ModO
     intro a b x hx
     simp only [mangleL, List.mem_append, separator] at hx
     rcases hx with (hx | hx) | hx
-    · exact code_lt _ _ x hx
+    · exact idChar_lt x (escModL_idChars a x hx)
     · simp at hx; omega
     · exact code_lt _ _ x hx
   exact mangle_injective m f m' f' hm hm' (map_ofNat_inj _ _ (lt m f) (lt m' f') h2)
@@ -137,5 +160,9 @@ example : escL none [97, 46, 98] = [97, 88, 50, 69, 98] ∧ escL none [97, 88, 5
     escL none [88] = [88, 53, 56] ∧ escL none [97, 95, 95, 98] = [97, 95, 95, 95, 98] := by decide
 /-- ("env", "a.b") → env__aX2Eb -/
 example : mangleL [101, 110, 118] [97, 46, 98] = [101, 110, 118, 95, 95, 97, 88, 50, 69, 98] := by decide
+
+/-- ("1env", "f") → X31env__f; ("0", "") → X30__; ("9_", "_") → X39____ (the rest "_" is a name of its own) -/
+example : mangleL [49, 101, 110, 118] [102] = [88, 51, 49, 101, 110, 118, 95, 95, 102] ∧ mangleL [48] [] = [88, 51, 48, 95, 95] ∧ mangleL [57, 95] [95] = [88, 51, 57, 95, 95, 95, 95] := by decide
+example : ModOK [49, 101, 110, 118] ∧ ModOK [48] := by decide
 
 end W2c2Verif.Props.C04Mangle
